@@ -287,6 +287,9 @@ func instrumentFile(p *packages.Package, f *ast.File, fn string, pristine bool) 
 			}
 		case *ast.GoStmt:
 			census(n, "concurrency", "go statement")
+			// counted at run time: C11 only has to refuse when a goroutine is
+			// actually spawned inside a simulated operation
+			add(n.Pos(), fmt.Sprintf("verifsim_.Unowned(%d); ", newSite(fset, n.Pos(), "go")))
 		case *ast.SelectStmt:
 			// a select with a default clause never blocks (a buffered channel used
 			// as a free list, a non-blocking notification): the serialised schedule
